@@ -15,7 +15,7 @@ import time
 
 from vlib import core
 
-BINS = ["h_noise", "h_peer"]
+BINS = ["h_noise", "h_peer", "h_peer_tokio"]
 LEVEL = "proof"
 MANIFEST = {
     "category": "proof",
@@ -26,6 +26,7 @@ MANIFEST = {
 
 ENC = "lightning/src/ln/peer_channel_encryptor.rs"
 PH = "lightning/src/ln/peer_handler.rs"
+NT = "lightning-net-tokio/src/lib.rs"
 
 
 # ----------------------------------------------------------------- generation
@@ -129,6 +130,32 @@ def generate(ctx):
     if lock_call < 0 or any(o < 0 or o < lock_call for o in others):
         raise ValueError("C15 generate: handle_message no longer runs do_handle_message_holding_peer_lock before dispatching to handlers")
     meta.append({"name": "init-gate position (ordered anchors)", "file": PH, "line_start": hline + hbody[:gate].count("\n")})
+    # the pong rule: `if msg.ponglen < N {` in the Ping arm (a `<=` is read as `< N + 1`, so that
+    # the frame-fit theorem is re-checked against what the code does rather than refused)
+    wbody, wline = _fn_body(ph, "do_handle_message_without_peer_lock")
+    m = _one(r"Message::Ping\(msg\)\s*=>\s*\{\s*if\s+msg\.ponglen\s*(<=?)\s*(\d+)\s*\{", wbody, "`if msg.ponglen < N {` in the Ping arm")
+    ping_limit = int(m.group(2)) + (1 if m.group(1) == "<=" else 0)
+    meta.append({"name": "PING_PONGLEN_LIMIT", "file": PH, "line_start": wline + wbody[:m.start()].count("\n"), "value": ping_limit})
+    m = _one(r"const\s+OUTBOUND_BUFFER_LIMIT_READ_PAUSE\s*:\s*usize\s*=\s*(\d+)\s*;", ph, "OUTBOUND_BUFFER_LIMIT_READ_PAUSE")
+    read_pause_limit = int(m.group(1))
+    meta.append({"name": "OUTBOUND_BUFFER_LIMIT_READ_PAUSE", "file": PH, "line_start": ph[:m.start()].count("\n") + 1, "value": read_pause_limit})
+    # the socket driver's half of the send_data(data, continue_read) contract (model: drv_send_data):
+    # the read-pause flag is assigned, and a paused reader woken, BEFORE any return on empty data
+    nt = open(os.path.join(core.REPO, NT)).read()
+    sbody, sline = _fn_body(nt, "send_data")
+    i_flag = sbody.find("us.read_paused = !continue_read")
+    i_wake = sbody.find("read_waker.try_send")
+    i_empty = sbody.find("data.is_empty()")
+    if i_flag < 0 or i_wake < 0 or i_empty < 0:
+        raise ValueError("C15 generate: lightning-net-tokio send_data: anchors `us.read_paused = !continue_read` / `read_waker.try_send` / `data.is_empty()` not all found")
+    if not (i_flag < i_wake < i_empty):
+        raise ValueError("C15 generate: lightning-net-tokio send_data (line %d): the early return on empty data now precedes the update of the read-pause flag / the reader wake-up: "
+                         "an empty write (how PeerManager resumes reading when nothing is queued) no longer resumes reads" % (sline + sbody[:i_empty].count("\n")))
+    pre = re.sub(r"//[^\n]*", "", sbody[:i_flag])
+    early_returns = [mm.start() for mm in re.finditer(r"\breturn\b", pre)]
+    if len(early_returns) > 1 or (early_returns and "writer.is_none()" not in pre[:early_returns[0]]):
+        raise ValueError("C15 generate: lightning-net-tokio send_data: a new early return precedes the read-pause flag update")
+    meta.append({"name": "net-tokio send_data: flag update and wake-up before the empty-data return", "file": NT, "line_start": sline + sbody[:i_flag].count("\n")})
     ck, l1 = _arr32(enc, "NOISE_CK")
     h, l2 = _arr32(enc, "NOISE_H")
     meta.append({"name": "NOISE_CK", "file": ENC, "line_start": l1})
@@ -139,6 +166,8 @@ def generate(ctx):
     text += "(* %s: `if *rn >= %d {` in decrypt_length_header *)\nDefinition ROT_RECV : Z := %d.\n" % (ENC, rot_recv, rot_recv)
     text += "(* %s: LN_MAX_MSG_LEN = %s *)\nDefinition LN_MAX_MSG_LEN : Z := %d.\n" % (ENC, e, maxlen)
     text += "(* %s: `if msg_len < %d {` in do_read_event *)\nDefinition MIN_MSG_LEN : Z := %d.\n" % (PH, minlen, minlen)
+    text += "(* %s: `if msg.ponglen < N {` in the Ping arm (exclusive bound) *)\nDefinition PING_PONGLEN_LIMIT : Z := %d.\n" % (PH, ping_limit)
+    text += "(* %s: OUTBOUND_BUFFER_LIMIT_READ_PAUSE *)\nDefinition OUTBOUND_BUFFER_LIMIT_READ_PAUSE : Z := %d.\n" % (PH, read_pause_limit)
     text += "Definition NOISE_CK : list Z := [%s].\n" % "; ".join(str(x) for x in ck)
     text += "Definition NOISE_H : list Z := [%s].\n" % "; ".join(str(x) for x in h)
     core.write_if_changed(os.path.join(core.COQ, "Gen", "NoiseConsts.v"), text)
@@ -203,6 +232,13 @@ Definition m_act3 (cv : curve) (ls_i ie ls_r re act : Noise.bytes) : string :=
   end.
 Definition rd_in (cv : curve) (ls re : Noise.bytes) (dtbl : list (Noise.bytes * dres)) (ib hb : list Noise.bytes) (fr : list Noise.bytes) :=
   run_reader cv ls re dtbl ib hb (inbound0 cv ls) fr.
+Definition rd_in_multi (cv : curve) (ls re : Noise.bytes) (dtbl : list (Noise.bytes * dres)) (ib hb : list Noise.bytes)
+    (hs : Noise.bytes) (tails : list (list Noise.bytes)) :=
+  let h := peer_handle (i_dh cv) (i_pub cv) (i_pk_valid cv) i_hkdf2 i_H i_seal i_open (lookup_dres dtbl)
+             (fun m => negb (existsb (bytes_eqb m) ib)) (fun m => negb (existsb (bytes_eqb m) hb)) ls re in
+  let '(c1, e1) := feed pstate event h (inbound0 cv ls) hs in
+  let shw := fun x : list event * status => (map show_event (fst x), show_status (snd x)) in
+  map (fun fr => shw (e1, c_status c1) :: map shw (feed_each pstate event h c1 fr)) tails.
 Definition rd_out (cv : curve) (ls ie their : Noise.bytes) (dtbl : list (Noise.bytes * dres)) (ib hb : list Noise.bytes) (fr : list Noise.bytes) :=
   match outbound_conn (i_dh cv) (i_pub cv) i_hkdf2 i_H i_seal their ie with
   | Some (a1, c0) => (hx a1, run_reader cv ls ie dtbl ib hb c0 fr)
@@ -761,11 +797,11 @@ def raw_scenarios(ctx):
         sc.append(("flip-act2", "out", [INIT, custom(2)], {"flips": [(off, 1 << rng.below(8))]}))
     f0 = 116 + len(INIT) // 2 + 34
     for off in range(18):
-        sc.append(("flip-header", "in", [INIT, custom(5), custom(2)], {"flips": [(f0 + off, 1 << rng.below(8))], "frags": [116, 40]}))
+        sc.append(("flip-header", "in", [INIT, custom(5), custom(2)], {"flips": [(f0 + off, 1 << rng.below(8))], "frags": [116, 40], "shared": 1}))
     for off in [18, 19, 22, 24, 25, 38, 39, 40]:
-        sc.append(("flip-body", "in", [INIT, custom(5), custom(2)], {"flips": [(f0 + off, 1 << rng.below(8))]}))
+        sc.append(("flip-body", "in", [INIT, custom(5), custom(2)], {"flips": [(f0 + off, 1 << rng.below(8))], "frags": [116], "shared": 1}))
     for off in range(116, 116 + 18):
-        sc.append(("flip-init-header", "in", [INIT, custom(2)], {"flips": [(off, 1 << rng.below(8))]}))
+        sc.append(("flip-init-header", "in", [INIT, custom(2)], {"flips": [(off, 1 << rng.below(8))], "frags": [116], "shared": 1}))
     # replay, reorder, truncation, insertion
     sc.append(("replay", "in", [INIT, custom(4), custom(5), custom(6)], {"replay": (1, 3)}))
     sc.append(("replay-first", "in", [INIT, custom(4), custom(5)], {"replay": (0, 2)}))
@@ -805,17 +841,17 @@ def raw_scenarios(ctx):
     # in the same read_event as the end of the handshake (our Init only queued) and in a later one
     # (our Init already on the wire), against an inbound and an outbound PeerManager
     for name, m in all_messages():
-        sc.append(("first-" + name, "in", [m, custom(2)], {"frags": [116]}))
+        sc.append(("first-" + name, "in", [m, custom(2)], {"frags": [116], "shared": 1}))
         sc.append(("first!" + name, "in", [m, custom(2)], {}))
         sc.append(("first!" + name, "out", [m, custom(2)], {"frags": [50]}))
         sc.append(("first!" + name, "out", [m, custom(2)], {}))
     for size, k, tlv in ((2, 1, False), (2, 2, False), (3, 3, True), (2, 3, False)):
         pre = [start_batch(size)] + [commitment_signed(batch_tlv=tlv)] * k
-        sc.append(("first-batch-%d-%d" % (size, k), "in", pre + [custom(2)], {"frags": [116]}))
+        sc.append(("first-batch-%d-%d" % (size, k), "in", pre + [custom(2)], {"frags": [116], "shared": 1}))
         sc.append(("first!batch-%d-%d" % (size, k), "out", pre + [custom(2)], {}))
     # ... and right after an accepted Init: the dispatch / batch path of the model against the code
     for name, m in all_messages():
-        sc.append(("post-" + name, "in", [INIT, m, custom(2)], {}))
+        sc.append(("post-" + name, "in", [INIT, m, custom(2)], {"frags": [116], "shared": 1}))
     cs, cs2 = commitment_signed(), commitment_signed(chan=CH2)
     for nm, fr in (("batch-2", [start_batch(2), cs, cs, custom(3)]), ("batch-3-tlv", [start_batch(3), commitment_signed(batch_tlv=True)] * 1 + [cs, cs, custom(3)]),
                    ("batch-interrupted", [start_batch(2), cs, custom(3)]), ("batch-wrong-channel", [start_batch(2), cs2, cs]),
@@ -823,14 +859,47 @@ def raw_scenarios(ctx):
                    ("batch-size-20", [start_batch(20)] + [cs] * 20 + [custom(3)]), ("batch-size-21", [start_batch(21), cs]),
                    ("batch-no-type", [start_batch(2, False), cs, custom(3)]), ("batch-nested", [start_batch(2), start_batch(2)]),
                    ("batch-then-filter", [start_batch(2), "0109" + CHAIN + "0000000000000001"]), ("batch-twice", [start_batch(2), cs, cs, start_batch(2), cs, cs, custom(3)])):
-        sc.append((nm, "in", [INIT] + fr, {}))
+        sc.append((nm, "in", [INIT] + fr, {"frags": [116], "shared": 1}))
     if not quick:
         sc.append(("max", "in", [INIT, custom(65533), custom(2)], {"frags": [116, 40, 30000]}))
+    # well-formed messages whose numeric fields drive a reply or an allocation, after Init.
+    # "wf-" are also predicted by the model (small frames), "wf!" are judged on the implementation
+    # only (maximal frames; real P2PGossipSync behind the recording routing handler)
+    for pl in (0, 1, 65531, 65532, 65533, 65535):
+        for bl in (0, 1):
+            sc.append(("wf-ping-%d-%d" % (pl, bl), "in", [INIT, "0012" + u(2, pl) + u(2, bl) + "00" * bl, custom(2)], {"frags": [116], "shared": 1}))
+        sc.append(("wf!ping-%d-max" % pl, "in", [INIT, "0012" + u(2, pl) + u(2, 65529) + "00" * 65529, custom(2)], {}))
+    sc.append(("wf-pings", "in", [INIT] + ["0012" + u(2, pl) + "0000" for pl in (65531, 65532, 0, 65531)] + [custom(2)], {"frags": [116, 30, 30], "shared": 1}))
+    sc.append(("wf-ping-out", "out", [INIT, "0012" + u(2, 65531) + "0000", "0012" + u(2, 65532) + "0000", custom(2)], {}))
+    for bl in (0, 1, 65531):
+        sc.append(("wf!pong-%d" % bl, "in", [INIT, "0013" + u(2, bl) + "00" * bl, custom(2)], {}))
+    U32 = (0, 1, 2 ** 31, 2 ** 32 - 2, 2 ** 32 - 1)
+    for a in U32:
+        for b in U32:
+            sc.append(("wf!query_channel_range", "in", [INIT, "0107" + CHAIN + u(4, a) + u(4, b), custom(2)], {"gossip": 1}))
+            sc.append(("wf!gossip_timestamp_filter", "in", [INIT, "0109" + CHAIN + u(4, a) + u(4, b), custom(2)], {"gossip": 1}))
+    for a, b in ((0, 0), (2 ** 32 - 1, 2 ** 32 - 1), (1000, 2 ** 32 - 1)):
+        for nsc in (0, 1, 8184):
+            sc.append(("wf!reply_channel_range", "in", [INIT, "0108" + CHAIN + u(4, a) + u(4, b) + "01" + u(2, 1 + 8 * nsc) + "00" + u(8, 42) * nsc, custom(2)], {"gossip": 1}))
+    for nsc in (0, 1, 8187):
+        sc.append(("wf!query_short_channel_ids", "in", [INIT, "0105" + CHAIN + u(2, 1 + 8 * nsc) + "00" + "".join(u(8, 1 + i) for i in range(nsc)), custom(2)], {"gossip": 1}))
+    sc.append(("wf!query_other_chain", "in", [INIT, "0107" + "00" * 32 + u(4, 0) + u(4, 2 ** 32 - 1), "0105" + "00" * 32 + "0009" + "00" + u(8, 42), custom(2)], {"gossip": 1}))
+    for gl, fl, last in ((0, 65529, "00"), (65529, 0, "00"), (30000, 35529, "00"), (0, 65529, "02"), (0, 1, "02"), (0, 65529, "01"), (1, 0, "00")):
+        feats = "00" * (fl - 1) + last if fl else ""
+        sc.append(("wf!init-features-%d-%d-%s" % (gl, fl, last), "in", ["0010" + u(2, gl) + "00" * gl + u(2, fl) + feats, custom(2)], {}))
+    for ty in ("0011", "0001"):
+        sc.append(("wf!%s-max-data" % ty, "in", [INIT, ty + CH + u(2, 65499) + "61" * 65499, custom(2)], {}))
+        sc.append(("wf!%s-empty-data" % ty, "in", [INIT, ty + CH + "0000", custom(2)], {}))
+    for ty in ("ea61", "ea60", "8001", "8002"):
+        for n in (0, 1, 65533):
+            sc.append(("wf!type-%s-%d" % (ty, n), "in", [INIT, ty + "5a" * n, custom(2)], {}))
     return sc
 
 
 def raw_line(i, role, frames, opts):
-    s = "raw %s %d frames=%s" % (role, 1000 + i, ",".join(f if f else "-" for f in frames))
+    # scenarios marked `shared` use one set of keys, so that the model evaluates their common
+    # (honest, 116-byte) handshake once per group
+    s = "raw %s %d frames=%s" % (role, 7777 if opts.get("shared") else 1000 + i, ",".join(f if f else "-" for f in frames))
     if "frags" in opts:
         s += " frags=" + ",".join(str(x) for x in opts["frags"])
     if "flips" in opts:
@@ -845,6 +914,8 @@ def raw_line(i, role, frames, opts):
         s += " insert=%d:%s" % opts["insert"]
     if "stream" in opts:
         s += " stream=" + opts["stream"]
+    if "gossip" in opts:
+        s += " gossip=1"
     return s
 
 
@@ -890,7 +961,7 @@ def pm_level(ctx, model_ok):
         ctx.violation("harness h_peer did not produce one result per raw scenario", {"broken": "correspondence:h_peer", "rc": rc, "n_out": len(out)}, False)
         return None, None, cov
     hist = {}
-    exprs, emeta = [], []
+    exprs, emeta, shared = [], [], []
     first_seen, undecodable = set(), set()
     for (name, role, frames, opts), line, o in zip(sc, rl, out):
         rep = "echo '%s' | %s" % (line[:600], ctx.bin_path("h_peer"))
@@ -900,7 +971,7 @@ def pm_level(ctx, model_ok):
         j = json.loads(o)
         res = [x["res"] for x in j["obs"]]
         items = [it for x in j["obs"] for it in x["items"]]
-        key = re.sub(r"^(first.|post-).*", r"\1*", name) + ":" + ("panic" if j["panic"] else "err" if "err" in res else "ok")
+        key = re.sub(r"^(first.|post-|wf.).*", r"\1*", name) + ":" + ("panic" if j["panic"] else "err" if "err" in res else "ok")
         hist[key] = hist.get(key, 0) + 1
         # --- judge on the implementation
         if j["panic"]:
@@ -913,6 +984,10 @@ def pm_level(ctx, model_ok):
         honest_stream = "stream" not in opts and not any(k in opts for k in ("flips", "replay", "swap", "cut", "insert"))
         exp_all = [m for m, d in zip(frames, j["dec"]) if observable(m) and d.startswith("ok")]
         calls = [it for it in items if it not in ("X",)]
+        if not j["panic"] and not j.get("replies_ok", True):
+            fails.append({"kind": "the PeerManager put bytes on the wire that the peer's real decryptor does not accept as frames (%s): %s" % (name, ", ".join(j["replies"][-2:])), "input": line[:600], "replay_cmd": rep})
+        if name.startswith("wf") and ("dead" in res or "panic" in res) and False:
+            pass
         if name.startswith("first"):
             # nothing may reach ANY handler method, peer_connected must not be called, and (when the
             # frame decodes, i.e. gets as far as the gate) the connection must be dropped
@@ -954,7 +1029,7 @@ def pm_level(ctx, model_ok):
         if name.startswith("honest") and (("err" in res) or msgs_seen != exp_all):
             fails.append({"kind": "an honest stream was not delivered (%s)" % name, "input": line[:600], "delivered": len(msgs_seen), "expected": len(exp_all), "replay_cmd": rep})
         # --- model prediction for the same bytes and the same fragmentation
-        if model_ok and not j["panic"] and name not in NO_MODEL and not name.startswith("first!"):
+        if model_ok and not j["panic"] and name not in NO_MODEL and not name.startswith("first!") and not name.startswith("wf!"):
             cv = curve_expr(j["pubs"], j["dh"], j["valid"])
             dtbl, ib, hb = [], [], []
             for m in frames:
@@ -967,11 +1042,29 @@ def pm_level(ctx, model_ok):
                     hb.append(B(m))
             frs = "[" + "; ".join(B(x) for x in j["frags"]) + "]"
             tabs = "[%s] [%s] [%s]" % ("; ".join(dtbl), "; ".join(ib), "; ".join(hb))
-            if role == "in":
+            if opts.get("shared") and role == "in" and j["frags"] and len(j["frags"][0]) == 232:
+                shared.append(((name, role, line, j), cv, dtbl, ib, hb))
+            elif role == "in":
                 exprs.append("rd_in %s (%s) (%s) %s %s" % (cv, B(j["pm_secret"]), B(j["pm_eph"]), tabs, frs))
             else:
                 exprs.append("rd_out %s (%s) (%s) (%s) %s %s" % (cv, B(j["pm_secret"]), B(j["pm_eph"]), B(j["h_static_pub"]), tabs, frs))
-            emeta.append((name, role, line, j))
+            if not (opts.get("shared") and role == "in" and j["frags"] and len(j["frags"][0]) == 232):
+                emeta.append((name, role, line, j))
+    # groups of scenarios with the same keys and the same first read_event (the honest handshake)
+    groups = []
+    shared.sort(key=lambda x: (x[0][3]["frags"][0], x[1]))
+    GS = 14
+    while shared:
+        head = shared[0]
+        grp = [x for x in shared[:GS] if x[0][3]["frags"][0] == head[0][3]["frags"][0] and x[1] == head[1]]
+        shared = shared[len(grp):]
+        dt = sorted(set(d for x in grp for d in x[2]))
+        ibs = sorted(set(d for x in grp for d in x[3]))
+        hbs = sorted(set(d for x in grp for d in x[4]))
+        j0 = head[0][3]
+        tails = "[" + "; ".join("[" + "; ".join(B(f) for f in x[0][3]["frags"][1:]) + "]" for x in grp) + "]"
+        exprs.append("rd_in_multi %s (%s) (%s) [%s] [%s] [%s] (%s) %s" % (head[1], B(j0["pm_secret"]), B(j0["pm_eph"]), "; ".join(dt), "; ".join(ibs), "; ".join(hbs), B(j0["frags"][0]), tails))
+        groups.append([x[0] for x in grp])
     cov["raw_scenarios"] = len(sc)
     cov["first_message_types_tried"] = len(first_seen)
     cov["first_message_frames_not_decodable"] = sorted(undecodable)
@@ -981,9 +1074,11 @@ def pm_level(ctx, model_ok):
     if model_ok and exprs:
         t0 = time.time()
         vals = ctx.coq_eval("c15_reader", IMPORTS, exprs, prelude=PRELUDE, shards=16, timeout=1500)
-        ctx.log("reader model evaluation: %d scenarios in %.0fs" % (len(exprs), time.time() - t0))
+        ctx.log("reader model evaluation: %d scenarios (%d expressions) in %.0fs" % (len(emeta) + sum(len(g) for g in groups), len(exprs), time.time() - t0))
         n_calls = 0
-        for (name, role, line, j), v in zip(emeta, vals):
+        TUP = r"\(\[([^\]]*)\],\s*\"(\w+)\"\)"
+        results = []
+        for (name, role, line, j), v in zip(emeta, vals[:len(emeta)]):
             if role == "out":
                 a1 = strs(v)[0]
                 if a1 != j["pm_first"]:
@@ -991,12 +1086,28 @@ def pm_level(ctx, model_ok):
                     continue
                 v = v[v.index(a1) + len(a1) + 1:]
             # split the printed list of (events, status) pairs
-            calls = re.findall(r"\(\[([^\]]*)\],\s*\"(\w+)\"\)", v)
+            results.append(((name, role, line, j), re.findall(TUP, v)))
+        for grp, v in zip(groups, vals[len(emeta):]):
+            flat = re.findall(TUP, v)
+            pos = 0
+            for meta in grp:
+                k = len(meta[3]["frags"])
+                results.append((meta, flat[pos:pos + k]))
+                pos += k
+            if pos != len(flat):
+                dis.append({"topic": "reader (grouped evaluation): number of read_event calls", "impl": pos, "model": len(flat)})
+        for (name, role, line, j), calls in results:
             if len(calls) != len(j["obs"]):
                 dis.append({"topic": "reader: number of read_event calls", "input": line[:400], "impl": len(j["obs"]), "model": len(calls)})
                 continue
             dead = False
             batch = None
+            # replies the model says the gate enqueues (pongs) vs. what the peer really received
+            model_r = [(e[1:9], int(e[10:], 16)) for evs0, _ in calls for e in strs(evs0) if e.startswith("R")]
+            impl_r = [(x.split(":")[2], int(x.split(":")[1])) for x in j.get("replies", []) if x.startswith("19:")]
+            if model_r != impl_r and "err" not in [x["res"] for x in j["obs"]]:
+                dis.append({"topic": "replies (%s)" % name, "input": line[:400], "impl": impl_r, "model": model_r})
+                continue
             for ci, ((evs, status), ob) in enumerate(zip(calls, j["obs"])):
                 n_calls += 1
                 evs = strs(evs)
@@ -1030,6 +1141,74 @@ def pm_level(ctx, model_ok):
                     break
         cov["reader_calls_compared"] = n_calls
     return dis, fails, cov
+
+
+# ----------------------------------------------------------------- real socket driver (lightning-net-tokio)
+def tokio_level(ctx, model_ok):
+    """back-pressure through the real driver: judged on the implementation, with bounded waits.
+    A failing case is repeated with a longer limit before it counts (machine load must not raise an
+    alarm); a case the environment cannot run (no localhost sockets) is reported, not failed."""
+    rng = ctx.rng.fork("tokio")
+    quick = ctx.tier == "quick"
+    lines = ["pause %d %d 5000" % (rng.below(2 ** 40), rng.choice([3, 10, 25, 60])) for _ in range(6 if quick else 40)]
+    rc, out = ctx.run_bin("h_peer_tokio", "\n".join(lines) + "\n", timeout=600)
+    out = [l for l in out if l]
+    fails, cov = [], {"cases": 0, "skipped": [], "pause_engaged": 0, "retried": 0, "max_ms": 0}
+    if rc != 0 or len(out) != len(lines):
+        return [{"topic": "h_peer_tokio did not produce one result per case", "rc": rc, "n_out": len(out)}], [], {"tokio": cov}
+    for line, o in zip(lines, out):
+        if o == "PANIC":
+            fails.append({"kind": "panic with two PeerManagers over lightning-net-tokio", "input": line})
+            continue
+        j = json.loads(o)
+        if "skipped" in j:
+            cov["skipped"].append(j["skipped"])
+            continue
+        cov["cases"] += 1
+        if not j["ok"]:
+            # repeat twice with a 15 s limit: only a reproducible failure counts
+            cov["retried"] += 1
+            again = " ".join(line.split()[:3]) + " 15000"
+            rc2, out2 = ctx.run_bin("h_peer_tokio", again + "\n" + again + "\n", timeout=200)
+            js = [json.loads(x) for x in out2 if x.startswith("{")]
+            if len(js) == 2 and all(not x.get("ok", True) for x in js):
+                fails.append({"kind": "over lightning-net-tokio: " + "; ".join(js[0]["why"]), "input": again, "observed": {k: js[0].get(k) for k in ("sent", "delivered", "pause_engaged")}})
+            continue
+        cov["pause_engaged"] += 1 if j.get("pause_engaged") else 0
+        cov["max_ms"] = max(cov["max_ms"], j.get("ms", 0))
+    if out and out[0].startswith("{"):
+        ctx.samples.append(json.loads(out[0]))
+    return [], fails, {"tokio": cov}
+
+
+def release_level(ctx, model_ok):
+    """thorough only: the first-message and well-formed-message sweeps again on a release build
+    (no debug assertions, wrapping arithmetic): no panic, legal replies, nothing before Init"""
+    if ctx.tier != "thorough":
+        return [], [], {}
+    ok_build, out = ctx.build_harness(["h_peer"], release=True)
+    if not ok_build:
+        return [{"topic": "release build of h_peer failed", "log": out[-1500:]}], [], {}
+    sc = [x for x in raw_scenarios(ctx) if x[0].startswith(("first", "wf", "short", "non-init", "batch"))]
+    rl = [raw_line(i, role, frames, opts) for i, (name, role, frames, opts) in enumerate(sc)]
+    rc, out = ctx.run_bin("h_peer", "\n".join(rl) + "\n", timeout=1500, release=True)
+    out = [l for l in out if l]
+    fails = []
+    if rc != 0 or len(out) != len(rl):
+        return [{"topic": "release h_peer did not produce one result per scenario", "rc": rc}], [], {}
+    for (name, role, frames, opts), line, o in zip(sc, rl, out):
+        if o == "PANIC":
+            fails.append({"kind": "release build: panic in scenario " + name, "input": line[:600], "release": True})
+            continue
+        j = json.loads(o)
+        items = [it for x in j["obs"] for it in x["items"] if it != "X"]
+        if j["panic"]:
+            fails.append({"kind": "release build: PeerManager panicked on peer input (%s)" % name, "input": line[:600], "release": True})
+        if not j.get("replies_ok", True):
+            fails.append({"kind": "release build: undecryptable bytes on the wire (%s)" % name, "input": line[:600], "release": True})
+        if name.startswith("first") and items:
+            fails.append({"kind": "release build: before the peer's Init a handler was called (%s)" % name[6:], "input": line[:600], "release": True})
+    return [], fails, {"release_scenarios": len(sc)}
 
 
 # ----------------------------------------------------------------- run
@@ -1073,7 +1252,8 @@ def run(ctx):
         "secp256k1 (public keys, encodings accepted, ECDH) enters the model as data produced by the Rust side",
         "section hypotheses of the handshake theorem: dh a (pub b) = dh b (pub a), |pub a| = 33, pub a is a valid key",
         "premise of C15_tamper_disconnects (INT-CTXT for the stream at hand): the chunk that differs from the honest ciphertext does not open under the receiver's key and nonce",
-        "harness crate /verif/harness (h_noise, h_peer)",
+        "harness crate /verif/harness (h_noise, h_peer, h_peer_tokio; src/c15_common.rs recording handlers)",
+        "lightning-net-tokio is exercised, not modelled: its send_data is pinned structurally (flag update and wake-up before the empty-data return) and judged through a real localhost socket pair with bounded waits",
     ]
     ctx.assumptions += ["ECDH symmetry / key encoding laws (handshake)", "ciphertext integrity of ChaCha20-Poly1305 (tamper theorem premise)",
                         "SocketDescriptor::send_data returns at most the length offered (trait contract)"]
@@ -1096,8 +1276,10 @@ def run(ctx):
     c = level("cipher", cipher_level)
     k = level("corrupt", corrupt_level)
     p = level("pm", pm_level)
+    tk = level("tokio", tokio_level)
+    rel = level("release", release_level)
     dis, fails = [], []
-    for name, r in (("cipher", c), ("corrupt", k), ("pm", p)):
+    for name, r in (("cipher", c), ("corrupt", k), ("pm", p), ("tokio", tk), ("release", rel)):
         if r is None or r[0] is None:
             continue
         dis += [dict(d, level=name) for d in r[0]]
@@ -1177,7 +1359,7 @@ def replay(ctx, rep):
     if not ok_build:
         print("harness does not build")
         return 1
-    binname = "h_peer" if line.split()[0] in ("honest", "raw") else "h_noise"
+    binname = "h_peer" if line.split()[0] in ("honest", "raw") else "h_peer_tokio" if line.split()[0] == "pause" else "h_noise"
     line = line.rstrip("\n")
     pre = ""
     if fi.get("state"):
